@@ -304,6 +304,26 @@ pub fn append(level: u8, f: &mut dyn FnMut(Case)) {
             one_rule("append", vec![v("$O")], pre, vec![v("$Z")], f);
         }
     }
+    // two inputs that reach the same bound tail variable; the same bound-tail list passed twice
+    for tl in [list(vec![atom("c"), atom("d")]), list(vec![]), list(vec![atom("c")])] {
+        let pre = vec![G::Unify(v("$T"), tl.clone())];
+        let shapes: Vec<Vec<T>> = vec![
+            vec![list_t(vec![a()], v("$T")), list_t(vec![b()], v("$T"))],
+            vec![list_t(vec![a()], v("$T")), v("$T")],
+            vec![v("$T"), list_t(vec![a()], v("$T")), atom("x")],
+        ];
+        for ins in shapes {
+            let mut body = pre.clone();
+            let mut args = ins.clone();
+            args.push(v("$O"));
+            body.push(G::Bip("append".into(), args));
+            one_rule("append", vec![v("$O")], body, vec![v("$Z")], f);
+        }
+        let mut body = pre.clone();
+        body.push(G::Unify(v("$L"), list_t(vec![a()], v("$T"))));
+        body.push(G::Bip("append".into(), vec![v("$L"), atom("x"), v("$L"), v("$O")]));
+        one_rule("append", vec![v("$O")], body, vec![v("$Z")], f);
+    }
     // Out given as a list: equal, different, pattern with tail
     let outs = vec![list(vec![a(), b()]), list(vec![a()]), list_t(vec![v("$H")], v("$R")), list(vec![]), a(), list(vec![a(), list(vec![])])];
     let d0 = list_values("0");
@@ -403,6 +423,20 @@ pub fn functor(_level: u8, f: &mut dyn FnMut(Case)) {
                 let mut body = pre.clone();
                 body.push(G::Bip("functor".into(), args));
                 one_rule("functor", vec![v("$P"), v("$A")], body, vec![v("$Z"), v("$W")], f);
+            }
+        }
+        // the pattern (and the arity) reach functor() through a bound variable
+        for p in [atom("foo"), atom("foo*"), atom("f*"), atom("bar*"), atom("fo")] {
+            for ar in [None, Some(T::Int(1)), Some(T::Int(2))] {
+                let mut body = pre.clone();
+                body.push(G::Unify(v("$Q"), p.clone()));
+                let mut args = vec![t.clone(), v("$Q")];
+                if let Some(x) = &ar {
+                    body.push(G::Unify(v("$N"), x.clone()));
+                    args.push(v("$N"));
+                }
+                body.push(G::Bip("functor".into(), args));
+                one_rule("functor", vec![atom("ok"), v("$Q")], body, vec![v("$Z"), v("$W")], f);
             }
         }
     }
